@@ -617,5 +617,44 @@ def r5_proxy_forwarding(chk: Check) -> None:
                     chk.undecided("C19.R5", fn, f"_add_filter({flag}, ...)", "include flag is not a literal", fn.loc(c))
 
 
+def r6_explicit_cases_pass_hooks(chk: Check) -> None:
+    chk.rule("C19.R6", "WHO-MUST-CALL(data hooks on explicit cases): every case that is handed to Hypothesis as an explicit example (`hypothesis.example(case=...)`) comes out of the operation's strategy machinery (as_strategy / get_strategies_from_examples, where map / filter / flatmap / before_generate hooks of all scopes are applied) or has those hooks applied where it is built", floor=2)
+    P = chk.project
+    B = "generation/hypothesis/builder.py"
+    mod = P.module(B)
+    HOOKED = ("as_strategy", "get_strategies_from_examples", "get_case_strategy", "apply_to_all_dispatchers", "_apply_hooks", "dispatch")
+    n = 0
+
+    def reaches_hooks(f: FuncInfo, depth: int = 0, seen: set[str] | None = None) -> bool:
+        seen = seen or set()
+        if f.qualname in seen or depth > 3:
+            return False
+        seen.add(f.qualname)
+        for c in body_calls(f, into_nested=True):
+            if last_attr(c) in HOOKED:
+                return True
+            if isinstance(c.func, ast.Name):
+                for t in mod.functions.values():
+                    if t.name == c.func.id and t.parent is None and reaches_hooks(t, depth + 1, seen):
+                        return True
+        return False
+
+    for fn in mod.functions.values():
+        if isinstance(fn.node, ast.Lambda) or fn.parent is not None:
+            continue
+        sites = [c for c in body_calls(fn) if isinstance(c.func, ast.Call) and dotted(c.func.func) == "hypothesis.example" and kwarg(c.func, "case") is not None]
+        for c in sites:
+            n += 1
+            construct = f"{fn.name}: explicit cases pass the data hooks"
+            if reaches_hooks(fn):
+                chk.ok("C19.R6", fn, construct, "built through the operation's strategies", fn.loc(c))
+            else:
+                chk.violation("C19.R6", fn, construct,
+                              "the cases are constructed directly (operation.Case(...)) and registered as explicit examples: no map_* / filter_* / flatmap_* / before_generate_* hook of any scope is ever applied to them - a `map_headers` hook that stamps every request, or a `filter_query` that forbids a value, has no effect in this phase",
+                              fn.loc(c))
+    if n < 2:
+        chk.undecided("C19.R6", "<discovery>", f"sites={n}", "fewer hypothesis.example(case=...) sites than confirmed by hand (2)")
+
+
 def rules(tier: str) -> list:  # type: ignore[type-arg]
-    return [r1_cell, r2_hook_loops, r2b_should_skip, r3_all_scopes, r4_auth, r5_proxy_forwarding]
+    return [r1_cell, r2_hook_loops, r2b_should_skip, r3_all_scopes, r4_auth, r5_proxy_forwarding, r6_explicit_cases_pass_hooks]
